@@ -297,6 +297,28 @@ def run(chk):
         if not (key[0] == "const" and (key[1].get("def") or "").endswith("::ACTIVE")):
             return False, "swap uses %s, not the ACTIVE thread-local" % o_str(key), [], w.loc
         sw = cb.calls_to(path="core::mem::swap")
+        rp = cb.calls_to(path="core::mem::replace")
+        if not sw and len(rp) == 1 and cb.count_on_paths({rp[0].bb}) == (1, 1):
+            # the same exchange spelt as `let old = mem::replace(slot, <incoming's value>); *incoming = old`
+            ent = [c for c in cb.calls(normal_only=True) if c.callee.get("name") == "entry"]
+            if len(ent) != 1 or ("callsite", ent[0].bb) not in common.roots(cb.origin(rp[0].args[0])):
+                return False, "mem::replace does not write this context's map entry", [], rp[0].loc
+            ko = cb.origin(ent[0].args[1])
+            if not (ko[0] == "capture" and mir.o_is_param(P.capture_origin(cb, ko), idx=1)):
+                return False, "the slot is looked up with key %s, not the id parameter" % o_str(ko), [], ent[0].loc
+            par = P.body(cb.parent_key)
+            if not any(l[0] == "param" and l[1] == par.key and l[2] == 2 for l in common.deep_roots(P, cb, cb.origin(rp[0].args[1]))):
+                return False, "the value stored in the slot is %s, not the incoming frame's" % o_str(cb.origin(rp[0].args[1])), [], rp[0].loc
+            back = False
+            for bb, j, st in cb.statements(normal_only=True):
+                if st["k"] == "assign" and st["place"].get("p") and st["place"]["l"] == 1 and st["rv"]["k"] == "use":
+                    v = mir.o_root(cb.origin(st["rv"]["op"]))
+                    tgt = cb._origin_place({"l": 1, "p": st["place"]["p"][:2]}, 0, (), set())
+                    if v[0] == "call" and v[1].bb == rp[0].bb and tgt[0] == "capture" and mir.o_is_param(P.capture_origin(cb, tgt), idx=2):
+                        back = True
+            if not back:
+                return False, "the slot's previous value (the result of mem::replace) is not handed back through the frame parameter", [], rp[0].loc
+            return True, "", [ent[0].loc, rp[0].loc]
         if len(sw) != 1 or cb.count_on_paths({sw[0].bb}) != (1, 1):
             return False, "swap must exchange the slot and the frame with exactly one mem::swap", [], cb.span
         a = cb.origin(sw[0].args[0])
